@@ -138,8 +138,10 @@ pub fn gen_line(r: &mut Rng) -> String {
 pub fn run(seed: u64, cases: u64, replay: Option<&str>, o: &mut Out) {
     if let Some(p) = replay {
         for l in super::replay_lines(p) {
+            if l.starts_with("mon_") { continue; }
             let res = exec_line(&l);
             o.line(&l, &res);
+            emit_monitors(&l, &res, o);
         }
         return;
     }
